@@ -13,7 +13,7 @@ import subprocess
 import sys
 
 VERIF = "/verif"
-ENV = dict(os.environ, GOFLAGS="-mod=mod", GOPROXY="off", GOSUMDB="off", GOTOOLCHAIN="local")
+ENV = dict(os.environ, VERIF_SCRATCH_EVIDENCE="/tmp/verif_scratch_evidence", GOFLAGS="-mod=mod", GOPROXY="off", GOSUMDB="off", GOTOOLCHAIN="local")
 
 
 def sh(cmd, cwd=None, timeout=7200):
